@@ -41,11 +41,14 @@ Record pbase : Type := {
   pb_toks : list tok;                 (* lex of the whole baseline *)
   pb_err : bool;                      (* has_err pb_toks *)
   pb_like : bool;                     (* the position goes through doLike *)
-  pb_shape_ok : bool;                 (* the baseline, split at the marker's literal, passes SqlTemplate.tpl_ok *)
-  pb_mid_shape : string * list string (* pb_mid split at the marker's literal *)
+  pb_shape_ok : bool;                 (* the baseline, split at the marker, passes SqlTemplate.tplq_ok *)
+  pb_mid_shape : string * list string (* pb_mid split at the marker *)
 }.
 Definition nat_of_int (i : int) : nat := Z.to_nat (Uint63.to_Z i).
-Definition hole_text (like : bool) (v : string) : string := if like then do_like_lit v else quote_seq v.
+(* the bytes written for value v inside the literal at its place: the escape loop over v, for line
+   filters over the LIKE-escaped v *)
+Definition hole_text (like : bool) (v : string) : string :=
+  esc_seq escape_table (if like then like_escape v else v).
 Definition mk_pbase (marker sql : string) (p s : nat) (like : bool) : pbase :=
   let n := String.length sql in
   let pre := substring 0 p sql in
@@ -58,9 +61,8 @@ Definition mk_pbase (marker sql : string) (p s : nat) (like : bool) : pbase :=
   {| pb_marker := marker; pb_pre := pre; pb_mid := mid; pb_suf := suf; pb_q0 := q0; pb_o0 := o0;
      pb_qb := qb; pb_sufT := sufT; pb_midT := midT; pb_toks := toks; pb_err := has_err toks;
      pb_like := like;
-     pb_shape_ok := (let '(t0, rest) := split_all (hole_text like marker) sql in tpl_ok QN t0 rest)
-                    || match marker with EmptyString => true | _ => false end;
-     pb_mid_shape := split_all (hole_text like marker) mid |}.
+     pb_shape_ok := (let '(t0, rest) := split_all marker sql in tplq_ok QN t0 rest);
+     pb_mid_shape := split_all marker mid |}.
 Definition case_toks (b : pbase) (mid : string) : list tok :=
   let q := after (pb_q0 b) mid in
   (pb_o0 b ++ outs (pb_q0 b) mid ++ (if st_eqb q (pb_qb b) then pb_sufT b else run q (pb_suf b)))%list.
